@@ -121,6 +121,7 @@ pub struct Card {
     pub in_block: bool,
     pub cur_addr: u32,
     pub rd_next: u32,
+    pub oor_quirk: bool,
     pub rd_active: bool,
     pub mem: HashMap<u32, Box<[u8; 512]>>,
     pub nblocks: u32,
@@ -168,7 +169,7 @@ impl Card {
         Card {
             kind, powered: false, idle: false, ready: false, v2ok: false, mode: Mode::Cmd, crc_on: false, app: false,
             acmd41_need: 1, acmd41_left: 1, busy_left: 0, outq: VecDeque::new(), frame: Vec::new(), block: Vec::new(),
-            in_block: false, cur_addr: 0, rd_next: 0, rd_active: false, mem: HashMap::new(), nblocks, csd,
+            in_block: false, cur_addr: 0, rd_next: 0, oor_quirk: false, rd_active: false, mem: HashMap::new(), nblocks, csd,
             resp_delay: 1, tok_delay: 2, busy_len: 3, rng: 1, random_timing: false, misb: Vec::new(), dead_from: None,
             dead_val: 0xFF, total_bytes: 0, call_bytes: 0, budget: u64::MAX, over_budget: false, spi_error_at: None,
             log: Vec::new(), idle_run: 0, idle_busy: 0, pay_ids: HashMap::new(), next_pay: 1, last_cmd: -1, pre_armed: false, pre_erase: 0, clock_since_cmd: 0,
@@ -383,7 +384,9 @@ impl Card {
             self.rd_active = false;
             self.mode = Mode::Cmd;
             self.outq.push_back(0xFF); // stuff byte
-            r1 = 0;
+            // a card whose read-ahead ran past the last block of the user area when the transfer is stopped may say so
+            // (OUT_OF_RANGE, physical layer specification 4.3.3): legal, the data it delivered is good and the host ignores it
+            r1 = if self.oor_quirk && self.rd_next >= self.nblocks { 0x40 } else { 0 };
             let (d, _) = self.queue_r1(r1, &[]);
             let b = self.busy_len;
             self.busy_after_queue(b);
